@@ -47,12 +47,14 @@ Record evaluation : Type := {
   ev_names : list (list Z)
 }.
 
-(* ModelEvaluation.__init__ : the shape checks *)
-Definition mk_eval (preds : list (list Qc)) (obs : list Qc) (chains : list Z) (names : list (list Z))
-  : result evaluation :=
+(* ModelEvaluation.__init__ : the shape checks.  [ncols] is predictions.shape[1] (defined also
+   for a matrix with zero rows); the wire decoder only admits matrices whose rows have that length. *)
+Definition mk_eval (ncols : nat) (preds : list (list Qc)) (obs : list Qc) (chains : list Z)
+  (names : list (list Z)) : result evaluation :=
   if negb (Nat.eqb (length preds) (length obs)) then Err E_VALUE
   else if negb (Nat.eqb (length names) (length obs)) then Err E_VALUE
-  else if negb (forallb (fun r => Nat.eqb (length r) (length chains)) preds) then Err E_VALUE
+  else if negb (forallb (fun r => Nat.eqb (length r) ncols) preds) then Err E_VALUE
+  else if negb (Nat.eqb (length chains) ncols) then Err E_VALUE
   else Ok {| ev_preds := preds; ev_obs := obs; ev_chains := chains; ev_names := names |}.
 
 (* (predictions - observations[:, None]) ** 2 *)
@@ -100,7 +102,7 @@ Definition ev_load (f : eval_file) : result evaluation :=
   let '(preds, obs, chains, names) := f in
   match names with
   | None => Err E_TYPE
-  | Some names => mk_eval preds obs chains names
+  | Some names => mk_eval (length chains) preds obs chains names
   end.
 
 (* predict_viability_avg: result = zeros(size); for theta: result = result + sub; result / n_thetas.
